@@ -66,6 +66,7 @@ type Hub struct {
 	muxReg        sync.Mutex
 	muxMdns       sync.Mutex
 	muxStarted    sync.Mutex
+	muxNotify     sync.Mutex // orders the delayed pairing detail notifications
 }
 
 func NewHub(hubReader api.HubReaderInterface,
